@@ -34,7 +34,10 @@ def _keep_escaped(error):
 codecs.register_error("ural_keep_escaped", _keep_escaped)
 
 
-C1_CONTROL_CHARS_RE = re.compile("[\x80-\x9f]")
+# NOTE: also the non-ascii whitespace, that would be stripped afterwards
+C1_CONTROL_CHARS_RE = re.compile(
+    "[\x80-\x9f\xa0\u1680\u2000-\u200a\u2028\u2029\u202f\u205f\u3000]"
+)
 
 
 def quote_match(match):
